@@ -661,6 +661,14 @@ func c07Explore(ctx *engine.Ctx) *engine.Report {
 			exhaustive = false
 		}
 	}
+	// ---- command sequences: several commands in one process, over two projects with like-named types -----------
+	{
+		depth := dq(4, 5)
+		nseq, viol := c07CommandSequences(dir, depth, ctx, &cands)
+		transitions += nseq
+		perSection["command-sequences"] = map[string]interface{}{"operations": len(c07CmdOps), "depth_completed": depth, "depth_bound": depth,
+			"sequences": nseq, "violating_sequences": viol, "dedup": false}
+	}
 	engine.ConfirmAndReport(ctx, rep, cands)
 	cov := rep.Coverage
 	cov["states"] = states
@@ -676,4 +684,161 @@ func c07Explore(ctx *engine.Ctx) *engine.Report {
 	cov["files"] = len(c07Files)
 	cov["bound_completed"] = "see per_section"
 	return rep
+}
+
+// ---- command sequences ------------------------------------------------------------------------------------------
+
+type c07CmdOp struct {
+	Proj string
+	Name string
+	Args []string
+}
+
+var c07CmdOps = []c07CmdOp{
+	{"shop", "analysis", []string{"analysis", "-p", "src", "-i=true"}},
+	{"shop", "api-forced", []string{"api", "-f=true", "-p", "src", "-c=false", "-s=false", "-a", "", "-r", "", "-d", "coca_reporter/deps.json"}},
+	{"shop", "api-not-forced", []string{"api", "-f=false", "-p", "src", "-c=false", "-s=false", "-a", "", "-r", "", "-d", "coca_reporter/deps.json"}},
+	{"library", "analysis", []string{"analysis", "-p", "src", "-i=true"}},
+	{"library", "api-forced", []string{"api", "-f=true", "-p", "src", "-c=false", "-s=false", "-a", "", "-r", "", "-d", "coca_reporter/deps.json"}},
+	{"library", "api-not-forced", []string{"api", "-f=false", "-p", "src", "-c=false", "-s=false", "-a", "", "-r", "", "-d", "coca_reporter/deps.json"}},
+}
+
+var c07CmdProjects = map[string][]FileSpec{
+	"shop": {
+		{Path: "shop/src/shop/Item.java", Content: "package shop;\n\npublic class Item {\n    private String sku;\n}\n"},
+		{Path: "shop/src/shop/ItemController.java", Content: "package shop;\n\nimport org.springframework.web.bind.annotation.*;\n\n@RestController\n@RequestMapping(\"/items\")\npublic class ItemController {\n    @PostMapping(\"/create\")\n    public String create(@RequestBody Item item) {\n        return \"x\";\n    }\n}\n"},
+	},
+	"library": {
+		{Path: "library/src/library/Item.java", Content: "package library;\n\npublic class Item {\n    private String isbn;\n    private String title;\n}\n"},
+		{Path: "library/src/library/ItemController.java", Content: "package library;\n\nimport org.springframework.web.bind.annotation.*;\n\n@RestController\n@RequestMapping(\"/books\")\npublic class ItemController {\n    @PostMapping(\"/add\")\n    public String add(@RequestBody Item item) {\n        return \"y\";\n    }\n\n    @GetMapping(\"/all\")\n    public String all() {\n        return \"z\";\n    }\n}\n"},
+	},
+}
+
+// c07RunCmdSeq materialises both projects, runs the sequence in one child process and returns the reports per project.
+func c07RunCmdSeq(seq []int) (map[string]string, string) {
+	var files []FileSpec
+	for _, p := range []string{"shop", "library"} {
+		files = append(files, c07CmdProjects[p]...)
+	}
+	root, cleanup := materialise(files)
+	defer cleanup()
+	var cmds [][]string
+	for _, i := range seq {
+		op := c07CmdOps[i]
+		cmds = append(cmds, append([]string{op.Proj}, op.Args...))
+	}
+	r := runCLISeq(root, cmds)
+	if r.Exit != 0 {
+		return nil, fmt.Sprintf("exit status %d: %s", r.Exit, trimTo(r.Stderr+r.Stdout, 500))
+	}
+	out := map[string]string{}
+	for _, p := range []string{"shop", "library"} {
+		for _, f := range []string{"deps.json", "identify.json", "apis.json", "api.dot"} {
+			if b, err := os.ReadFile(filepath.Join(root, p, "coca_reporter", f)); err == nil {
+				out[p+"/"+f] = strings.ReplaceAll(string(b), root, "$ROOT")
+			}
+		}
+	}
+	return out, ""
+}
+
+type c07SeqTask struct {
+	Seq []int `json:"seq"`
+}
+
+func c07SeqDescribe(seq []int) string {
+	var p []string
+	for _, i := range seq {
+		p = append(p, c07CmdOps[i].Proj+":"+c07CmdOps[i].Name)
+	}
+	return strings.Join(p, " ; ")
+}
+
+// c07SeqVerdict: every report present after the sequence equals the report of the canonical fresh-process pipeline
+// of its project (analysis, then the forced api scan).
+func c07SeqVerdict(seq []int) []engine.Violation {
+	ref := map[string]string{}
+	for _, pipeline := range [][]int{{0, 1}, {3, 4}} {
+		o, why := c07RunCmdSeq(pipeline)
+		if why != "" {
+			return []engine.Violation{engine.V("command-sequences", "reference-pipeline-failed", "%s: %s", c07SeqDescribe(pipeline), why)}
+		}
+		for k, v := range o {
+			ref[k] = v
+		}
+	}
+	got, why := c07RunCmdSeq(seq)
+	if why != "" {
+		return []engine.Violation{engine.V("command-sequences", "command-failed", "sequence [%s] in one process: %s", c07SeqDescribe(seq), why)}
+	}
+	var ks []string
+	for k := range got {
+		ks = append(ks, k)
+	}
+	sort.Strings(ks)
+	for _, k := range ks {
+		if got[k] != ref[k] {
+			return []engine.Violation{engine.V("command-sequences", filepath.Base(k)+"-depends-on-history", "after the commands [%s] in one process, %s differs from the report of a fresh process running only that project's pipeline: %s", c07SeqDescribe(seq), k, firstDiff(ref[k], got[k]))}
+		}
+	}
+	return nil
+}
+
+func init() {
+	engine.Tasks["c07seq"] = func(in json.RawMessage) interface{} {
+		var t c07SeqTask
+		json.Unmarshal(in, &t)
+		return engine.TaskVerdict{Violations: c07SeqVerdict(t.Seq)}
+	}
+}
+
+// c07CommandSequences enumerates every admissible sequence up to the depth (an api command needs the analysis
+// of its project earlier in the sequence) and judges each in task processes.
+func c07CommandSequences(dir string, depth int, ctx *engine.Ctx, cands *[]engine.Candidate) (int, int) {
+	var seqs [][]int
+	var rec func(cur []int)
+	rec = func(cur []int) {
+		if len(cur) > 0 {
+			seqs = append(seqs, append([]int{}, cur...))
+		}
+		if len(cur) == depth {
+			return
+		}
+		for i, op := range c07CmdOps {
+			if op.Name != "analysis" {
+				ok := false
+				for _, j := range cur {
+					ok = ok || (c07CmdOps[j].Proj == op.Proj && c07CmdOps[j].Name == "analysis")
+				}
+				if !ok {
+					continue
+				}
+			}
+			rec(append(cur, i))
+		}
+	}
+	rec(nil)
+	var inputs []interface{}
+	for _, s := range seqs {
+		inputs = append(inputs, c07SeqTask{Seq: s})
+	}
+	results, err := engine.RunTasks(ctx, "c07seq", inputs)
+	if err != nil {
+		panic(err)
+	}
+	viol := 0
+	for i, r := range results {
+		var v engine.TaskVerdict
+		if r.Err != "" || r.Panic != "" {
+			*cands = append(*cands, engine.Candidate{Violation: engine.V("command-sequences", "task-failed", "sequence [%s]: %s%s", c07SeqDescribe(seqs[i]), r.Err, r.Panic),
+				Desc: c07SeqDescribe(seqs[i]), Task: "c07seq", Input: inputs[i], Cost: len(seqs[i])})
+			continue
+		}
+		json.Unmarshal(r.Out, &v)
+		for _, x := range v.Violations {
+			viol++
+			*cands = append(*cands, engine.Candidate{Violation: x, Desc: c07SeqDescribe(seqs[i]), Task: "c07seq", Input: inputs[i], Cost: len(seqs[i])})
+		}
+	}
+	return len(seqs), viol
 }
